@@ -122,7 +122,7 @@ def java_cmd(xmx="3g", deque=True, xss="1g"):
         c.append("-Dtlc2.tool.queue.IStateQueue=StateDeque")
     return c + ["-cp", JAR, "tlc2.TLC"]
 
-FAIL_RE = re.compile(r'^<<"FAIL", "([^"]*)", (\d+), "([^"]*)"(?:, "([^"]*)")?>>')
+FAIL_RE = re.compile(r'^<<"FAIL", "([^"]*)", (\d+), "([^"]*)"(?:, "?([^">]*)"?)?>>')
 CONS_RE = re.compile(r'^<<"CONSUMED", (-?\d+), (\d+)>>')
 
 def tlc_trace(spec, cfg, trace, metadir, timeout=1800, xmx="3g", extra_env=None):
@@ -145,6 +145,8 @@ def tlc_trace(spec, cfg, trace, metadir, timeout=1800, xmx="3g", extra_env=None)
         if m:
             fails.append((m.group(1), int(m.group(2)), m.group(3), m.group(4) or ""))
             continue
+        if line.startswith('<<"FAIL"'):
+            raise ToolError("unparsable FAIL record from TLC: " + line)
         m = CONS_RE.match(line)
         if m:
             consumed, total = int(m.group(1)), int(m.group(2))
@@ -204,7 +206,7 @@ def load_known():
         return json.load(open(p))
     return {"known": [], "fixed": []}
 
-def finish(prop, tier, seed, level, coverage, violations, t0, assumptions=None, known_hits=None):
+def finish(prop, tier, seed, level, coverage, violations, t0, assumptions=None, known_hits=None, write=True):
     """violations: list of dict(what, replay). Writes evidence, prints verdict lines, exits."""
     os.makedirs(EVID, exist_ok=True)
     ev = {
@@ -214,9 +216,10 @@ def finish(prop, tier, seed, level, coverage, violations, t0, assumptions=None, 
     }
     if known_hits:
         ev["known_findings_seen"] = known_hits
-    tmp = os.path.join(EVID, prop + ".json.tmp")
-    json.dump(ev, open(tmp, "w"), indent=1)
-    os.replace(tmp, os.path.join(EVID, prop + ".json"))
+    if write:
+        tmp = os.path.join(EVID, prop + ".json.tmp")
+        json.dump(ev, open(tmp, "w"), indent=1)
+        os.replace(tmp, os.path.join(EVID, prop + ".json"))
     for k in (known_hits or []):
         print("KNOWN-FINDING: property=%s %s" % (prop, k))
     for v in violations[:20]:
